@@ -16,8 +16,9 @@
     and the End-of-RIB marker of that family, which tells the peer that the advertisement is
     complete, is not sent either (`wire-eor-while-deferred`).
   * "then every prefix received meanwhile is announced exactly once": at the step that releases
-    a family, every established speaker receives, for every prefix of it that has a usable path from
-    somebody else and none from the speaker itself, exactly one announcement
+    a family, every established speaker receives, for every prefix of it that has a usable path
+    announced on the present session of somebody else and none from the speaker itself, exactly one
+    announcement
     (`wire-release-not-announced`), nobody receives an announcement twice (`wire-announced-twice`),
     and the End-of-RIB of the family follows the announcements (`wire-eor-missing-after-release`,
     `wire-eor-before-routes`).
@@ -129,14 +130,23 @@ def firstEorIdx (fs : List Frame) (f : Fam) : Option Nat :=
 
 def usableRib (r : R) : List (Fam × Nat × Peer) := r.rib.filter (fun e => !r.invalid.contains e.2.2)
 
-/-- prefixes of family `f` speaker `q` must be told at the release: a usable path from somebody else,
-    none from `q` itself -/
-def owed (r : R) (f : Fam) (q : Peer) : List Nat :=
+/-- prefixes of family `f` speaker `q` must be told at the release: a usable path from somebody else
+    that was announced on that peer's PRESENT session (`fresh`; what is kept, stale, from an earlier
+    session of a peer may have been purged by the helper side, which is C10's subject: it may be
+    announced, it need not), none from `q` itself -/
+def owed (r : R) (fresh : List (Fam × Nat × Peer)) (f : Fam) (q : Peer) : List Nat :=
   let mine := (usableRib r).filter (·.1 = f)
-  let ns := (mine.filter (·.2.2 ≠ q)).map (·.2.1)
+  let ns := ((mine.filter (fun e => e.2.2 ≠ q && fresh.contains e)).map (·.2.1))
   (ns.filter (fun n => !mine.any (fun e => e.2.1 = n && e.2.2 = q))).eraseDups
 
-def wstepOk (cfg : Cfg) (ev : Ev) (r r' : R) (o : StepObs) : Except String Unit :=
+/-- the paths announced on sessions that are up now -/
+def freshNext (fresh : List (Fam × Nat × Peer)) : Ev → List (Fam × Nat × Peer)
+  | .ins p f n => if fresh.contains (f, n, p) then fresh else (f, n, p) :: fresh
+  | .rm p f n => fresh.filter (· ≠ (f, n, p))
+  | .rd (.wd p) => fresh.filter (·.2.2 ≠ p)
+  | _ => fresh
+
+def wstepOk (cfg : Cfg) (ev : Ev) (r r' : R) (fresh' : List (Fam × Nat × Peer)) (o : StepObs) : Except String Unit :=
   let rel := releasedNow r r'
   let fs := allFrames o
   let heldOn := fun (f : Fam) => held r f && !rel.contains f
@@ -144,7 +154,7 @@ def wstepOk (cfg : Cfg) (ev : Ev) (r r' : R) (o : StepObs) : Except String Unit 
     .error "wire-advertised-while-deferred"
   else if fs.any (fun x => match x with | .eor f => heldOn f | _ => false) then
     .error "wire-eor-while-deferred"
-  else if rel.any (fun f => r'.up.any (fun q => (owed r' f q.1).any (fun n => countReach (framesOf o q.1) f n = 0))) then
+  else if rel.any (fun f => r'.up.any (fun q => (owed r' fresh' f q.1).any (fun n => countReach (framesOf o q.1) f n = 0))) then
     .error "wire-release-not-announced"
   else if rel.any (fun f => o.any (fun q => (q.2.any (fun x => match x with
             | .reach g n => g = f && countReach (framesOf o q.1) g n > 1 | _ => false)))) then
@@ -166,22 +176,23 @@ def wstepOk (cfg : Cfg) (ev : Ev) (r r' : R) (o : StepObs) : Except String Unit 
         else .ok ()
     | _ => .ok ()
 
-def checkFrom (cfg : Cfg) (r : R) (i : Nat) : List Ev → List StepObs → Verdict
+def checkFrom (cfg : Cfg) (r : R) (fresh : List (Fam × Nat × Peer)) (i : Nat) : List Ev → List StepObs → Verdict
   | [], [] => .ok
   | e :: es, o :: os =>
       if !wwf cfg r e then .ok     -- outside the property's domain from here on
       else
         let r1 := wnext cfg r e
-        match wstepOk cfg e r r1 o with
+        let fresh1 := freshNext fresh e
+        match wstepOk cfg e r r1 fresh1 o with
         | .error c => .fail i c
         | .ok _ =>
             let r2 := { r1 with released := r1.released ++ releasedNow r r1, timer := timerAfter cfg r r1 }
-            checkFrom cfg r2 (i + 1) es os
+            checkFrom cfg r2 fresh1 (i + 1) es os
   | _, _ => .fail i "trace-length"
 
 def check (cfg : Cfg) (evs : List Ev) : Trace → Verdict
   | .inconclusive => .ok
-  | .steps os => checkFrom cfg (Spec.init cfg) 1 evs os
+  | .steps os => checkFrom cfg (Spec.init cfg) [] 1 evs os
 
 /-! ## the checker at work (hand-checked traces; the second of each pair is what the daemon sent
     before the repair of the initial dump / of the End-of-RIB at establishment) -/
